@@ -195,7 +195,9 @@ CHECKS = {
             "canonical log deltas, stage objects, snapshots, store and version equal the reflection-off twin; ids/ts pure in (agent, "
             "turn, slot, text). plan_flag: 2-6 calls of the real LLM policy (run_policy) on one state with valid/fenced/prose/schema-"
             "invalid/adapter-error/raising/inactive planner outcomes, then the real gate: the request consulted is the one of this "
-            "call's plan (no stale flag after a fallback).",
+            "call's plan (no stale flag after a fallback). gate: direct helper+writer call sequences on one dict- or object-shaped "
+            "state with new/reused ctx over allow x plan-object kinds x state flag x dry marker x cfg location; ctx objects reused "
+            "across turns; memory_index and mem_index as one or two objects; 0-8 candidate entries with own id/ts fields.",
             "Trusted: the reflection-off twin as oracle; ts compared only for equal logical now_ms.",
             "DESIGN.md §3 C19"),
     "C20": ("fault_enumeration",
